@@ -26,6 +26,10 @@ def main():
         s = z3.Solver(); x = z3.Real('x'); s.add(x * x == 2)
         assert str(s.check()) == 'sat'
         print('selfcheck ok: z3', z3.get_version_string())
+        from props import leanlemma
+        for name in ('Folding',):
+            ok, out, secs = leanlemma.check(name)
+            print('lean lemma', name, 'ok' if ok else 'FAILED', '%.0fs' % secs, out[:200].replace('\n', ' | '))
         return 0
     if a.replay:
         from pyvc.prop import replay_file
